@@ -100,6 +100,12 @@ func (manager *TaskManager) Create(pip pipservices.Pip) (result pipservices.Task
 	childScope = scope.NewChild(parentScope, scope.ChildParams{
 		Name: fmt.Sprintf("task:%s", taskname),
 	})
+	// a scope that is already done does not wait for new children any more:
+	// a task started in it would run detached from everything that waits for the scope
+	if parentScope.IsDone() {
+		childScope.Close()
+		return nil, goaterr.Errorf("Task '%s' can not be started in a scope that is done", taskname)
+	}
 	if err = manager.deps.NamespacesUnit.Define(childScope, childNamespaces); err != nil {
 		childScope.Close()
 		return nil, err
